@@ -390,7 +390,7 @@ func (x *Exec) scalarArgsOnly(c *ssa.CallCommon) bool {
 func (x *Exec) tryEvalBool(ex SExpr, env *Env, c *Clause) (t string, ok bool) {
 	defer func() {
 		if r := recover(); r != nil {
-			if u, isU := r.(unsupported); isU && (strings.Contains(u.msg, "unbound name") || strings.Contains(u.msg, "no field") || strings.Contains(u.msg, "non-struct value")) {
+			if u, isU := r.(unsupported); isU && (strings.Contains(u.msg, "unbound name") || strings.Contains(u.msg, "no such address-taken variable") || strings.Contains(u.msg, "no field") || strings.Contains(u.msg, "non-struct value")) {
 				t, ok = "", false
 				return
 			}
